@@ -694,3 +694,233 @@ pub fn c07_triple(ctx: &mut Ctx, a: &str, bb: &str, c: &str) {
     }
     ctx.nontrivial_cur();
 }
+
+// =====================================================================  C08
+
+fn c08_feats(ty: &str, what: &str, texts: &[&[u8]]) -> Feats {
+    vec![("family", FAM.into()), ("type", ty.into()), ("law", what.into()), ("octets", octet_class(texts).into())]
+}
+
+/// The Eq/Ord/Hash laws on one pair of values of one type (borrowed `x`,`y`).
+macro_rules! c08_laws {
+    ($ctx:expr, $ty:expr, $x:expr, $y:expr, $texts:expr) => {{
+        let (x, y) = ($x, $y);
+        let texts: &[&[u8]] = $texts;
+        $ctx.call("laws");
+        match crate::ctx::guard(|| (x == y, x.cmp(y), y.cmp(x), x.partial_cmp(y), fnv(x), fnv(y), sip(x), sip(y), x.cmp(x), x == x)) {
+            Err(m) => {
+                $ctx.fail("C08.panic", c08_feats($ty, "total", texts), format!("{}: ==/cmp/hash panicked: {}", $ty, m));
+                return;
+            }
+            Ok((eq, c, rc, pc, hx, hy, sx, sy, cxx, exx)) => {
+                use std::cmp::Ordering;
+                if eq && (hx != hy || sx != sy) {
+                    $ctx.fail("C08.hash", c08_feats($ty, "eq=>hash", texts), format!("{}: {} == {} but their hashes differ", $ty, show(texts[0]), show(texts[1])));
+                }
+                if (c == Ordering::Equal) != eq {
+                    $ctx.fail("C08.ord-eq", c08_feats($ty, "cmp==Equal<=>eq", texts), format!("{}: cmp({}, {}) = {:?} but == is {}", $ty, show(texts[0]), show(texts[1]), c, eq));
+                }
+                if c != rc.reverse() {
+                    $ctx.fail("C08.antisym", c08_feats($ty, "cmp(a,b)==cmp(b,a).reverse()", texts), format!("{}: cmp({}, {}) = {:?} but reversed = {:?}", $ty, show(texts[0]), show(texts[1]), c, rc));
+                }
+                if pc != Some(c) {
+                    $ctx.fail("C08.partial", c08_feats($ty, "partial_cmp==Some(cmp)", texts), format!("{}: partial_cmp = {:?}, cmp = {:?}", $ty, pc, c));
+                }
+                if cxx != Ordering::Equal || !exx {
+                    $ctx.fail("C08.reflexive", c08_feats($ty, "reflexive", texts), format!("{}: value not equal to itself", $ty));
+                }
+                $ctx.stratum(if eq { "law:equal-pair" } else { "law:unequal-pair" });
+                (eq, c, hx)
+            }
+        }
+    }};
+}
+
+macro_rules! c08_same {
+    ($ctx:expr, $ty:expr, $what:expr, $texts:expr, $a:expr, $b:expr) => {{
+        $ctx.call($what);
+        match crate::ctx::guard(|| ($a, $b)) {
+            Ok((a, b)) => {
+                if a != b {
+                    $ctx.fail("C08.views", c08_feats($ty, $what, $texts), format!("{}: {} disagree: {:?} vs {:?} on {}", $ty, $what, a, b, $texts.iter().map(|t| show(t)).collect::<Vec<_>>().join(" , ")));
+                }
+            }
+            Err(m) => $ctx.fail("C08.panic", c08_feats($ty, $what, $texts), format!("{}: {} panicked: {}", $ty, $what, m)),
+        }
+    }};
+}
+
+pub fn c08_ref_pair(ctx: &mut Ctx, a: &str, bb: &str) {
+    let (Ok(x), Ok(y)) = (RiRef::new(a), RiRef::new(bb)) else {
+        ctx.stratum("skipped:rejected-by-library");
+        return;
+    };
+    let texts: [&[u8]; 2] = [b(a), b(bb)];
+    let (_eq, c, hx) = c08_laws!(ctx, "RiRef", x, y, &texts);
+    let xo = x.to_owned();
+    let yo = y.to_owned();
+    // owned vs borrowed (Borrow<RiRef> for RiRefBuf)
+    c08_same!(ctx, "RiRefBuf", "hash owned vs borrowed", &texts, fnv(&xo), hx);
+    c08_same!(ctx, "RiRefBuf", "hash owned vs borrowed (DefaultHasher)", &texts, sip(&xo), sip(x));
+    c08_same!(ctx, "RiRefBuf", "cmp owned vs borrowed", &texts, xo.cmp(&yo), c);
+    c08_same!(ctx, "RiRefBuf", "partial_cmp Buf/borrowed", &texts, xo.partial_cmp(y), Some(c));
+    c08_same!(ctx, "RiRefBuf", "partial_cmp Buf/&borrowed", &texts, xo.partial_cmp(&y), Some(c));
+    c08_same!(ctx, "RiRef", "partial_cmp borrowed/Buf", &texts, x.partial_cmp(&yo), Some(c));
+    c08_same!(ctx, "RiRef", "partial_cmp borrowed/&borrowed", &texts, x.partial_cmp(&y), Some(c));
+    c08_same!(ctx, "RiRefBuf", "eq owned vs borrowed", &texts, xo == yo, x == y);
+    if let (Some(xi), Some(yi)) = (x.as_full(), y.as_full()) {
+        ctx.stratum("pair:both-full");
+        let (_e2, c2, hxi) = c08_laws!(ctx, "Ri", xi, yi, &texts);
+        // a URI/IRI versus the same text seen as a reference (Borrow<RiRef> for Ri and RiBuf)
+        c08_same!(ctx, "Ri", "hash full vs reference view", &texts, hxi, hx);
+        c08_same!(ctx, "Ri", "hash full vs reference view (DefaultHasher)", &texts, sip(xi), sip(x));
+        c08_same!(ctx, "Ri", "cmp full vs reference view", &texts, c2, c);
+        let xio = xi.to_owned();
+        let yio = yi.to_owned();
+        c08_same!(ctx, "RiBuf", "hash owned vs borrowed", &texts, fnv(&xio), hxi);
+        c08_same!(ctx, "RiBuf", "cmp owned vs borrowed", &texts, xio.cmp(&yio), c2);
+        c08_same!(ctx, "RiBuf", "hash RiBuf vs RiRef view", &texts, fnv(&xio), hx);
+        c08_same!(ctx, "Ri", "partial_cmp Ri/RiRef", &texts, xi.partial_cmp(y), Some(c));
+        c08_same!(ctx, "Ri", "partial_cmp Ri/&RiRef", &texts, xi.partial_cmp(&y), Some(c));
+        c08_same!(ctx, "Ri", "partial_cmp Ri/RiBuf", &texts, xi.partial_cmp(&yio), Some(c));
+        c08_same!(ctx, "Ri", "partial_cmp Ri/&Ri", &texts, xi.partial_cmp(&yi), Some(c));
+        c08_same!(ctx, "Ri", "partial_cmp Ri/RiRefBuf", &texts, xi.partial_cmp(&yo), Some(c));
+        c08_same!(ctx, "RiRef", "partial_cmp RiRef/Ri", &texts, x.partial_cmp(yi), Some(c));
+        c08_same!(ctx, "RiRef", "partial_cmp RiRef/&Ri", &texts, x.partial_cmp(&yi), Some(c));
+        c08_same!(ctx, "RiRef", "partial_cmp RiRef/RiBuf", &texts, x.partial_cmp(&yio), Some(c));
+        c08_same!(ctx, "RiBuf", "partial_cmp RiBuf/RiRef", &texts, xio.partial_cmp(y), Some(c));
+        c08_same!(ctx, "RiBuf", "partial_cmp RiBuf/&RiRef", &texts, xio.partial_cmp(&y), Some(c));
+        c08_same!(ctx, "RiBuf", "partial_cmp RiBuf/RiRefBuf", &texts, xio.partial_cmp(&yo), Some(c));
+        c08_same!(ctx, "RiBuf", "partial_cmp RiBuf/Ri", &texts, xio.partial_cmp(yi), Some(c));
+        c08_same!(ctx, "RiRefBuf", "partial_cmp RiRefBuf/Ri", &texts, xo.partial_cmp(yi), Some(c));
+        c08_same!(ctx, "RiRefBuf", "partial_cmp RiRefBuf/&Ri", &texts, xo.partial_cmp(&yi), Some(c));
+        c08_same!(ctx, "RiRefBuf", "partial_cmp RiRefBuf/RiBuf", &texts, xo.partial_cmp(&yio), Some(c));
+    }
+    if a != bb { ctx.nontrivial_cur(); }
+}
+
+macro_rules! c08_comp_typed {
+    ($ctx:expr, $name:literal, $T:ty, $a:expr, $b:expr) => {{
+        if let (Ok(x), Ok(y)) = (<$T>::new($a), <$T>::new($b)) {
+            let texts: [&[u8]; 2] = [x.as_bytes(), y.as_bytes()];
+            $ctx.stratum(concat!("comp:", $name));
+            let (_eq, c, hx) = c08_laws!($ctx, $name, x, y, &texts);
+            let xo = x.to_owned();
+            let yo = y.to_owned();
+            c08_same!($ctx, $name, "hash owned vs borrowed", &texts, fnv(&xo), hx);
+            c08_same!($ctx, $name, "cmp owned vs borrowed", &texts, xo.cmp(&yo), c);
+            c08_same!($ctx, $name, "partial_cmp Buf/borrowed", &texts, xo.partial_cmp(y), Some(c));
+            c08_same!($ctx, $name, "partial_cmp Buf/&borrowed", &texts, xo.partial_cmp(&y), Some(c));
+            // collections keyed by the owned form, looked up through Borrow<borrowed>
+            let r = crate::ctx::guard(|| {
+                let mut hs = std::collections::HashSet::new();
+                hs.insert(xo.clone());
+                let mut bs = std::collections::BTreeSet::new();
+                bs.insert(xo.clone());
+                (hs.contains(x), bs.contains(x), hs.contains(y), bs.contains(y), x == y)
+            });
+            match r {
+                Ok((h1, b1, h2, b2, eq)) => {
+                    if !h1 || !b1 || h2 != eq || b2 != eq {
+                        $ctx.fail("C08.lookup", c08_feats($name, "set lookup through Borrow", &texts), format!("{}: inserted {} ; contains(self) hash={} btree={} ; contains({}) hash={} btree={} ; == is {}", $name, show(texts[0]), h1, b1, show(texts[1]), h2, b2, eq));
+                    }
+                }
+                Err(m) => $ctx.fail("C08.panic", c08_feats($name, "set lookup through Borrow", &texts), format!("collection panicked: {}", m)),
+            }
+        } else {
+            $ctx.stratum("skipped:rejected-by-library");
+        }
+    }};
+}
+
+pub fn c08_comp_pair(ctx: &mut Ctx, a: &str, bb: &str, kind: u64) {
+    let (x, y) = (b(a), b(bb));
+    match kind {
+        0 => c08_comp_typed!(ctx, "Authority", Authority, a, bb),
+        1 => {
+            if let (Ok(p), Ok(q)) = (Path::new(a), Path::new(bb)) {
+                let texts: [&[u8]; 2] = [x, y];
+                ctx.stratum("comp:Path");
+                let _ = c08_laws!(ctx, "Path", p, q, &texts);
+            }
+        }
+        2 => c08_comp_typed!(ctx, "UserInfo", UserInfo, a, bb),
+        3 => c08_comp_typed!(ctx, "Host", Host, a, bb),
+        4 => c08_comp_typed!(ctx, "Segment", Segment, a, bb),
+        5 => c08_comp_typed!(ctx, "Query", Query, a, bb),
+        6 => c08_comp_typed!(ctx, "Fragment", Fragment, a, bb),
+        7 => c08_comp_typed!(ctx, "Scheme", Scheme, x, y),
+        _ => c08_comp_typed!(ctx, "Port", Port, x, y),
+    }
+    if a != bb { ctx.nontrivial_cur(); }
+}
+
+/// Batch: total order by sorting, and collection lookups through every Borrow view of the family.
+pub fn c08_batch(ctx: &mut Ctx, texts: &[&str]) {
+    let vals: Vec<RiRefBuf> = texts.iter().filter_map(|t| RiRefBuf::new(own(t)).ok()).collect();
+    if vals.len() < 2 { return; }
+    let all: Vec<&[u8]> = vals.iter().map(|v| v.as_bytes()).collect();
+    let mut sorted: Vec<&RiRefBuf> = vals.iter().collect();
+    ctx.call("sort");
+    match crate::ctx::guard(|| { sorted.sort(); sorted }) {
+        Err(m) => { ctx.fail("C08.panic", c08_feats("RiRefBuf", "sort", &all), format!("sorting a batch panicked: {}", m)); return; }
+        Ok(sorted) => {
+            let mut triples = 0u64;
+            for i in 0..sorted.len() {
+                for j in (i + 1)..sorted.len() {
+                    triples += 1;
+                    match crate::ctx::guard(|| sorted[i].cmp(sorted[j])) {
+                        Ok(std::cmp::Ordering::Greater) => {
+                            let t: [&[u8]; 2] = [sorted[i].as_bytes(), sorted[j].as_bytes()];
+                            ctx.fail("C08.total-order", c08_feats("RiRefBuf", "sorted sequence has an inverted pair", &t), format!("after sorting, {} (index {}) compares Greater than {} (index {}): the ordering is not transitive/total", show(t[0]), i, show(t[1]), j));
+                        }
+                        Ok(_) => {}
+                        Err(m) => ctx.fail("C08.panic", c08_feats("RiRefBuf", "cmp", &all), format!("cmp panicked: {}", m)),
+                    }
+                }
+            }
+            ctx.add("sorted_pairs_checked", triples);
+        }
+    }
+    // collections
+    let r = crate::ctx::guard(|| {
+        let hs: std::collections::HashSet<RiRefBuf> = vals.iter().cloned().collect();
+        let bs: std::collections::BTreeSet<RiRefBuf> = vals.iter().cloned().collect();
+        let hm: std::collections::HashMap<RiRefBuf, usize> = vals.iter().cloned().enumerate().map(|(i, v)| (v, i)).collect();
+        let mut missing: Vec<(String, &'static str)> = Vec::new();
+        for v in &vals {
+            let q: &RiRef = v.as_ref();
+            if !hs.contains(q) { missing.push((v.as_str().to_string(), "HashSet<RiRefBuf>.contains(&RiRef)")); }
+            if !bs.contains(q) { missing.push((v.as_str().to_string(), "BTreeSet<RiRefBuf>.contains(&RiRef)")); }
+            if hm.get(q).is_none() { missing.push((v.as_str().to_string(), "HashMap<RiRefBuf,_>.get(&RiRef)")); }
+        }
+        let fulls: Vec<RiBuf> = vals.iter().filter_map(|v| v.clone().try_into_full().ok()).collect();
+        let hs2: std::collections::HashSet<RiBuf> = fulls.iter().cloned().collect();
+        let bs2: std::collections::BTreeSet<RiBuf> = fulls.iter().cloned().collect();
+        for v in &fulls {
+            let q: &Ri = v.as_ref();
+            let qr: &RiRef = v.as_ref();
+            if !hs2.contains(q) { missing.push((v.as_str().to_string(), "HashSet<RiBuf>.contains(&Ri)")); }
+            if !bs2.contains(q) { missing.push((v.as_str().to_string(), "BTreeSet<RiBuf>.contains(&Ri)")); }
+            if !hs2.contains(qr) { missing.push((v.as_str().to_string(), "HashSet<RiBuf>.contains(&RiRef)")); }
+            if !bs2.contains(qr) { missing.push((v.as_str().to_string(), "BTreeSet<RiBuf>.contains(&RiRef)")); }
+        }
+        // borrowed full values as keys, looked up as references (Borrow<RiRef> for Ri)
+        let hs3: std::collections::HashSet<&Ri> = fulls.iter().map(|v| v.as_ref()).collect();
+        let _ = hs3.len();
+        (missing, fulls.len())
+    });
+    match r {
+        Ok((missing, nfull)) => {
+            ctx.add("collection_lookups", (vals.len() * 3 + nfull * 4) as u64);
+            if nfull > 0 { ctx.stratum("batch:has-full"); }
+            for (t, what) in missing {
+                let tt: [&[u8]; 1] = [t.as_bytes()];
+                ctx.fail("C08.lookup", c08_feats("RiRef/Ri", what, &tt), format!("{}: {} was inserted but is not found", what, show(t.as_bytes())));
+            }
+        }
+        Err(m) => ctx.fail("C08.panic", c08_feats("RiRefBuf", "collections", &all), format!("collection operations panicked: {}", m)),
+    }
+    ctx.stratum("batch");
+    ctx.nontrivial_cur();
+}
